@@ -15,6 +15,7 @@ import (
 
 	"github.com/TheCacophonyProject/go-cptv/cptvframe"
 	"github.com/TheCacophonyProject/thermal-recorder/headers"
+	"github.com/godbus/dbus"
 	"pgregory.net/rapid"
 	kit "verifkit"
 )
@@ -115,6 +116,10 @@ func vfC16Valid(c vfC16Case) string {
 	return ""
 }
 
+// vfC16Remote, when set, is the address of a private message bus: requesters then call the exported service
+// over their own D-Bus connections instead of calling the service methods directly.
+var vfC16Remote string
+
 type vfHeld struct {
 	f *cptvframe.Frame
 	v uint16
@@ -189,6 +194,26 @@ func vfC16Run(c vfC16Case, withReq bool) *vfC16Obs {
 						setFail(fmt.Sprintf("requester %d panicked: %v", ri, p))
 					}
 				}()
+				var remote dbus.BusObject
+				if vfC16Remote != "" {
+					conn, err := vfDialBus(vfC16Remote)
+					if err != nil {
+						setFail("INFRA: cannot connect to the private bus: " + err.Error())
+						return
+					}
+					defer conn.Close()
+					remote = conn.Object(dbusName, dbus.ObjectPath(dbusPath))
+				}
+				takeSnapshot := func(arg int) (*cptvframe.Frame, error) {
+					if remote == nil {
+						return newSnapshot(arg)
+					}
+					f := new(cptvframe.Frame)
+					if err := remote.Call(dbusName+".TakeSnapshot", 0, arg).Store(f); err != nil {
+						return nil, err
+					}
+					return f, nil
+				}
 				if c.WarmStart {
 					<-started
 				}
@@ -208,7 +233,7 @@ func vfC16Run(c vfC16Case, withReq bool) *vfC16Obs {
 							if rq.K == vfRqSnapL {
 								arg = last
 							}
-							f, err := newSnapshot(arg)
+							f, err := takeSnapshot(arg)
 							if err != nil || f == nil {
 								continue
 							}
@@ -243,9 +268,31 @@ func vfC16Run(c vfC16Case, withReq bool) *vfC16Obs {
 							}
 							last = f.Status.FrameCount
 						case vfRqRec:
-							svc.TakeTestRecording()
+							if remote != nil {
+								remote.Call(dbusName+".TakeTestRecording", 0)
+							} else {
+								svc.TakeTestRecording()
+							}
 						case vfRqInfo:
-							info, derr := svc.CameraInfo()
+							var info map[string]interface{}
+							var derr *dbus.Error
+							if remote != nil {
+								vm := map[string]dbus.Variant{}
+								if err := remote.Call(dbusName+".CameraInfo", 0).Store(&vm); err != nil {
+									continue
+								}
+								info = map[string]interface{}{}
+								for k, v := range vm {
+									switch x := v.Value().(type) {
+									case int32:
+										info[k] = int(x)
+									default:
+										info[k] = x
+									}
+								}
+							} else {
+								info, derr = svc.CameraInfo()
+							}
 							if derr == nil {
 								serialMu.Lock()
 								ok := sentSerial[info[headers.Serial].(int)]
